@@ -2,7 +2,7 @@
 from .. import core, expr_check, gen_stream
 from ._expr_common import ASSUME
 
-TIERS = {"quick": (18, 3, 3, 150), "thorough": (160, 4, 4, 700)}
+TIERS = {"quick": (18, 3, 3, 150), "thorough": (100, 4, 4, 600)}
 
 
 def run(tier, seed, verdict):
